@@ -361,6 +361,63 @@ tokenizer = cssutils.tokenize2.Tokenizer()
 savedTokens = []
 
 
+class _SorTokens:
+    """Tokens iterator which has S tokens removed if followed by anything
+    in ``until``, normally a ``,``. Once the first token which is neither S
+    nor COMMENT has been seen the tokens are simply passed on.
+
+    Instances do not pile up: a filter which is still active is used as it
+    is and one which only passes tokens on any more is replaced. A parse
+    asks for a new filter after each value, so a stack of filters grew as
+    deep as the value was long (and ended in a RecursionError).
+    """
+
+    def __init__(self, tokens, types, until=',/'):
+        while isinstance(tokens, _SorTokens) and tokens._done and not tokens._pending:
+            # only passing on
+            tokens = tokens._tokens
+        if isinstance(tokens, _SorTokens) and tokens._until == until:
+            # still active, filtering its result again changes nothing
+            self._done = True
+        else:
+            self._done = False
+        self._tokens = tokens
+        self._types = types
+        self._until = until
+        self._pending = []
+
+    def __iter__(self):
+        return self
+
+    def __next__(self):
+        if self._pending:
+            return self._pending.pop(0)
+        token = next(self._tokens)
+        if self._done:
+            # normal mode again
+            return token
+        if token[0] == self._types.S:
+            try:
+                next_ = next(self._tokens)
+            except StopIteration:
+                return token
+            if next_[1] in self._until:
+                # omit S as e.g. ``,`` has been found
+                return next_
+            elif next_[0] == self._types.COMMENT:
+                # pass COMMENT
+                return next_
+            else:
+                self._pending.append(next_)
+                return token
+        elif token[0] == self._types.COMMENT:
+            # pass COMMENT
+            return token
+        else:
+            self._done = True
+            return token
+
+
 class ProdParser:
     """Productions parser."""
 
@@ -402,34 +459,9 @@ class ProdParser:
             return text
 
     def _SorTokens(self, tokens, until=',/'):
-        """New tokens generator which has S tokens removed,
+        """New tokens iterator which has S tokens removed,
         if followed by anything in ``until``, normally a ``,``."""
-        for token in tokens:
-            if token[0] == self.types.S:
-                try:
-                    next_ = next(tokens)
-                except StopIteration:
-                    yield token
-                else:
-                    if next_[1] in until:
-                        # omit S as e.g. ``,`` has been found
-                        yield next_
-                    elif next_[0] == self.types.COMMENT:
-                        # pass COMMENT
-                        yield next_
-                    else:
-                        yield token
-                        yield next_
-
-            elif token[0] == self.types.COMMENT:
-                # pass COMMENT
-                yield token
-            else:
-                yield token
-                break
-        # normal mode again
-        for token in tokens:
-            yield token
+        return _SorTokens(tokens, self.types, until)
 
     def parse(  # noqa: C901
         self,
